@@ -63,6 +63,8 @@ def _confs():
             (None, {"severity": {"Todo": {"type": "error"}, "Note": {"type": "warning"}}, "rule": {"group": {"case": {"severity": "Note"}}, "global": {"severity": "Todo"}}}),
             (None, configs.random_conf(rnd, size=12)),
             ("jcl", configs.random_conf(rnd, "jcl", size=8)),
+            (None, {"rule": {"group": {"case": {"case": "upper"}}}}),
+            (None, {"rule": {"group": {"case::keyword": {"case": "upper"}, "structure": {"fixable": False}}}}),
         ]
     return CONFS
 
@@ -71,10 +73,10 @@ class _Args(vsgapi.CLA):
     pass
 
 
-def _process(path, style, conf, fix):
+def _process(path, style, conf, fix, fp=7):
     """one call of the real per-file entry point; returns a comparable tuple"""
     names = vsgapi.write_conf_files([conf]) if conf else []
-    args = _Args(style=style, configuration=names, fix=fix, json="x", junit="y")
+    args = _Args(style=style, configuration=names, fix=fix, json="x", junit="y", fix_phase=fp)
     args.filename = [path]
     out = io.StringIO()
     with contextlib.redirect_stdout(out), contextlib.redirect_stderr(out):
@@ -110,8 +112,34 @@ def _fork(fn):
     return pickle.loads(data)
 
 
-def fixed_cases(tier):
+PAIR_FILES = ["tests/architecture/rule_010_test_input.vhd", "tests/package_body/rule_002_test_input.vhd", "tests/entity/rule_015_test_input.vhd", "tests/process/rule_012_test_input.vhd", "tests/generate/rule_011_test_input.vhd", "tests/component/rule_021_test_input.vhd", "tests/function/rule_018_test_input.vhd", "tests/case/rule_019_test_input.vhd"]
+
+
+def _pair_histories(tier):
+    """seed-independent two-step histories: every (file, configuration, fix, fix_phase) variant as first step, followed by
+    a rotating selection of second steps (the second step's result must not depend on the first)"""
+    files = [f for f in PAIR_FILES if f in corpus.files()] + [f for f in corpus.files() if "corpus_extra" in f]
+    variants = []
+    for f in files:
+        for ci in range(len(_confs())):
+            for fix, fp in ((True, 7), (True, 1), (False, 7)):
+                variants.append([f, ci, fix, fp])
     out = []
+    k = 3 if tier == "quick" else 12
+    for i, v in enumerate(variants):
+        f = v[0]
+        f2 = files[(files.index(f) + 1) % len(files)]
+        # canonical probes after every first step: the same file (same constructs, same rules) and a neighbour, early fix phase and check
+        probes = [[f, 0, True, 1], [f, 0, False, 7], [f2, 0, True, 1]]
+        for j in range(k - 3):
+            probes.append(variants[(i * 31 + j * 97 + 13) % len(variants)])
+        for w in probes:
+            out.append({"k": "hist_replay", "history": [v, w], "pair": True})
+    return out
+
+
+def fixed_cases(tier):
+    out = _pair_histories(tier)
     n_hist = 16 if tier == "quick" else 64
     for i in range(n_hist):
         out.append({"k": "hist", "hseed": i, "examples": 6 if tier == "quick" else 25, "steps": 8 if tier == "quick" else 14})
@@ -139,11 +167,17 @@ def strategy(tier):
 
 
 def run_case(case, tier):
+    # every history runs in a fresh fork of this worker as it was before it processed anything, so that the recorded history
+    # is the complete history of the process that produced the result
     if case["k"] == "hist":
-        return _hist(case, tier)
-    if case["k"] == "hist_replay":
-        return _hist_replay(case)
-    return _cli(case, tier)
+        r = _fork(lambda: _hist(case, tier))
+    elif case["k"] == "hist_replay":
+        r = _fork(lambda: _hist_replay(case))
+    else:
+        return _cli(case, tier)
+    if not isinstance(r, dict):
+        raise RuntimeError("history child failed: %r" % (r,))
+    return r
 
 
 # ----------------------------------------------------------------------------------------------------
@@ -156,10 +190,10 @@ def _workdir():
 _FRESH = {}
 
 
-def _fresh_result(f, ci, fix):
+def _fresh_result(f, ci, fix, fp=7):
     """result of the call in a fresh fork of the pristine parent of this worker... the worker itself is not pristine, so the reference is
     produced by a child of a *dedicated pristine helper* started before the worker ran anything (see worker_init)"""
-    key = (f, ci, fix)
+    key = (f, ci, fix, fp)
     if key not in _FRESH:
         _FRESH[key] = _HELPER.ask(key)
     return _FRESH[key]
@@ -212,13 +246,13 @@ def worker_init(tier):
 
 
 def _one_fresh(key):
-    f, ci, fix = key
+    f, ci, fix, fp = key
     d = os.path.join(vsgapi.scratch_dir(), "c15f_%d" % os.getpid())
     os.makedirs(d, exist_ok=True)
     p = os.path.join(d, "f.vhd")
     shutil.copy(corpus.path(f), p)
     style, conf = _confs()[ci]
-    r = _process(p, style, conf, fix)
+    r = _process(p, style, conf, fix, fp)
     shutil.rmtree(d, ignore_errors=True)
     return _norm(r, p)
 
@@ -227,12 +261,16 @@ def _norm(r, path):
     return tuple(x.replace(path, "<FILE>") if isinstance(x, str) else x for x in r)
 
 
-def _step(f, ci, fix):
+_WORKER_HIST = []
+
+
+def _step(f, ci, fix, fp=7):
+    _WORKER_HIST.append([f, ci, fix, fp])
     d = _workdir()
     p = os.path.join(d, "h.vhd")
     shutil.copy(corpus.path(f), p)
     style, conf = _confs()[ci]
-    return _norm(_process(p, style, conf, fix), p)
+    return _norm(_process(p, style, conf, fix, fp), p)
 
 
 FIELDS = ("status", "junit", "json", "stdout", "stderr", "file_bytes", "printed", "stop_flag")
@@ -258,18 +296,20 @@ def _hist(case, tier):
             super().__init__()
             self.hist = []
 
-        @rule(fi=st.integers(0, len(files) - 1), ci=st.integers(0, nconf - 1), fix=st.booleans())
-        def process(self, fi, ci, fix):
+        @rule(fi=st.integers(0, len(files) - 1), ci=st.integers(0, nconf - 1), fix=st.booleans(), fp=st.sampled_from([7, 7, 7, 1, 2, 5]))
+        def process(self, fi, ci, fix, fp):
             if found:
                 return
             f = files[fi]
-            self.hist.append((f, ci, fix))
-            got = _step(f, ci, fix)
-            ref = _fresh_result(f, ci, fix)
+            if not fix:
+                fp = 7
+            self.hist.append((f, ci, fix, fp))
+            got = _step(f, ci, fix, fp)
+            ref = _fresh_result(f, ci, fix, fp)
             stats["steps"] += 1
             diff = _compare(got, ref)
             if diff:
-                found.append((list(self.hist), diff))
+                found.append(([list(x) for x in _WORKER_HIST], diff))
 
         def teardown(self):
             stats["histories"] += 1
@@ -297,13 +337,19 @@ def _hist(case, tier):
 
 def _hist_replay(case):
     res = {"labels": {}, "nontrivial": [], "failures": [], "evals": 0}
-    for i, (f, ci, fix) in enumerate(case["history"]):
-        got = _step(f, ci, fix)
-        ref = _fresh_result(f, ci, fix)
+    if case.get("pair"):
+        res["labels"]["pair_histories"] = 1
+        if case["history"][0][1] != case["history"][1][1] or case["history"][0][0] != case["history"][1][0]:
+            res["nontrivial"].append(common.h(case["history"]))
+    for i, step in enumerate(case["history"]):
+        f, ci, fix = step[:3]
+        fp = step[3] if len(step) > 3 else 7
+        got = _step(f, ci, fix, fp)
+        ref = _fresh_result(f, ci, fix, fp)
         res["evals"] += 1
         diff = _compare(got, ref)
         if diff:
-            res["failures"].append({"sig": {"kind": "result_depends_on_history", "field": diff[0]}, "detail": {"fields": diff, "step": i, "last_step": [f, ci, fix]}, "case": {"k": "hist_replay", "history": case["history"][: i + 1]}})
+            res["failures"].append({"sig": {"kind": "result_depends_on_history", "field": diff[0]}, "detail": {"fields": diff, "step": i, "last_step": [f, ci, fix, fp]}, "case": {"k": "hist_replay", "history": [list(x) for x in case["history"][: i + 1]]}})
             break
     return res
 
